@@ -776,6 +776,85 @@ func (v fileView) load() (intoto.Metadata, error) {
 	return intoto.LoadMetadata(p)
 }
 
+// hostileFile writes the file of the object seen as v with one member doubled: `member` under its own
+// name and under `alt` (another letter case, or the same name again); one occurrence carries the honest
+// value, the other the attacker's (another document / no signatures / garbage).  Members are written
+// in order by hand: encoding/json would not produce duplicates.
+func hostileFile(w string, v fileView, member, alt string, attackerFirst bool, attackerJSON json.RawMessage, attacker any) []byte {
+	q := func(s string) string { b, _ := json.Marshal(s); return string(b) }
+	obj := func(ms [][2]string) string {
+		var parts []string
+		for _, m := range ms {
+			parts = append(parts, q(m[0])+": "+m[1])
+		}
+		return "{" + strings.Join(parts, ", ") + "}"
+	}
+	pair := func(honest, evil string) [][2]string {
+		if attackerFirst {
+			return [][2]string{{member, evil}, {alt, honest}}
+		}
+		return [][2]string{{alt, honest}, {member, evil}}
+	}
+	// signature list, optionally with a doubled member inside every signature object
+	sigList := func(dupIn string) string {
+		var items []string
+		for _, s := range v.Sigs {
+			ms := [][2]string{}
+			for _, f := range [][2]string{{"keyid", s.KeyID}, {"sig", s.Sig}} {
+				if strings.EqualFold(f[0], dupIn) {
+					evil := q("00")
+					if f[0] == "keyid" {
+						evil = q(strings.Repeat("e", 64))
+					}
+					ms = append(ms, pair(q(f[1]), evil)...)
+				} else {
+					ms = append(ms, [2]string{f[0], q(f[1])})
+				}
+			}
+			if w == "legacy" && s.Cert != "" {
+				ms = append(ms, [2]string{"cert", q(s.Cert)})
+			}
+			items = append(items, obj(ms))
+		}
+		return "[" + strings.Join(items, ", ") + "]"
+	}
+	var ms [][2]string
+	if w == "dsse" {
+		evilPayload := q("e30=") // "{}"
+		if scratch, err := freshObject(w, attacker); err == nil {
+			if sv, err := viewOf(scratch); err == nil {
+				evilPayload = q(sv.Payload)
+			}
+		}
+		for _, m := range []string{"payloadType", "payload", "signatures"} {
+			honest := map[string]string{"payloadType": q(intoto.PayloadType), "payload": q(v.Payload), "signatures": sigList("")}[m]
+			if m == "signatures" && (strings.EqualFold(member, "sig") || strings.EqualFold(member, "keyid")) {
+				honest = sigList(member)
+			}
+			if strings.EqualFold(m, member) {
+				evil := map[string]string{"payloadType": q("text/plain"), "payload": evilPayload, "signatures": "[]"}[m]
+				ms = append(ms, pair(honest, evil)...)
+			} else {
+				ms = append(ms, [2]string{m, honest})
+			}
+		}
+	} else {
+		for _, m := range []string{"signed", "signatures"} {
+			honest := map[string]string{"signed": string(v.Signed), "signatures": sigList("")}[m]
+			if m == "signatures" && (strings.EqualFold(member, "sig") || strings.EqualFold(member, "keyid")) {
+				honest = sigList(member)
+			}
+			if strings.EqualFold(m, member) {
+				evil := map[string]string{"signed": string(attackerJSON), "signatures": "[]"}[m]
+				ms = append(ms, pair(honest, evil)...)
+			} else {
+				ms = append(ms, [2]string{m, honest})
+			}
+		}
+	}
+	return []byte(obj(ms))
+}
+
 func freshObject(wrapper string, p any) (intoto.Metadata, error) {
 	if wrapper == "dsse" {
 		e := &intoto.Envelope{}
@@ -866,6 +945,9 @@ type runResult struct {
 	Coq     string
 	LibSigned, LibValid int // signatures made by the library with sound keys / of those valid under crypto/* directly
 	EnvSteps, EnvEqual  int // DSSE: steps at which GetPayload() was compared with the content decoded from the signed payload bytes
+	AccSteps, AccOwned  int // accepted verifications / of those where GetPayload() is a document the key's owner signed
+	IDSteps, IDEqual    int // signatures made by the library / of those recorded under key.KeyID verbatim
+	NoModel             bool
 	FailOps, FailSame   int // failed Sign / SetPayload operations / of those that left the dumped object unchanged
 	RtSteps, RtEqual    int // Dump;LoadMetadata operations / of those that left the content of GetPayload() as it was
 	Klass   string
@@ -967,6 +1049,24 @@ func runCase(in caseInput) (res runResult) {
 	var implSteps, oracleSteps []string
 	libSigned, libValid := 0, 0
 	envSteps, envEqual, rtSteps, rtEqual := 0, 0, 0, 0
+	accSteps, accOwned, idSteps, idEqual := 0, 0, 0, 0
+	signedContents := map[string]map[string]bool{} // pool key (owner of the private half) -> canonical contents it signed
+	recordSigned := func(owner string, content []byte) {
+		if content == nil {
+			return
+		}
+		if signedContents[owner] == nil {
+			signedContents[owner] = map[string]bool{}
+		}
+		signedContents[owner][string(content)] = true
+	}
+	// canonical form of the content the signatures of the current object cover
+	contentOf := func(v fileView, written []byte) []byte {
+		if w == "dsse" {
+			return canonOfBytes(payloadBody(v))
+		}
+		return prescribedBytes(v, written)
+	}
 	failOps, failSame := 0, 0 // failed Sign / SetPayload operations / of those that left the dumped object as it was
 
 	md, err := freshObject(w, payloads[0])
@@ -976,6 +1076,7 @@ func runCase(in caseInput) (res runResult) {
 
 	// ground truth of the generator
 	var signedNow []int // cast indices that signed (or whose independent signature was injected) since the content was last set
+	noModel := false
 	curPayload := 0
 	histPath := tmpFile() // the one path every Dump of this history writes to
 	defer os.Remove(histPath)
@@ -1013,6 +1114,13 @@ func runCase(in caseInput) (res runResult) {
 			verdict := lib.Recover(func() string { return status(md.VerifySignature(k)) })
 			if verdict == "PANIC" {
 				verdict = "P"
+			}
+			if verdict == "T" && c.PubKey != nil {
+				// the property's core: a key verifies => the content handed out is a document its owner signed
+				accSteps++
+				if got := canonOfValue(md.GetPayload()); got != nil && signedContents[c.Spec.Pub][string(got)] {
+					accOwned++
+				}
 			}
 			iv.WriteString(verdict)
 			ov.WriteString(oracleVerdict(c, cast, w, cur, rawsNow, signedNow, dirty, verdict))
@@ -1069,6 +1177,13 @@ func runCase(in caseInput) (res runResult) {
 					if _, dup := signTable[key]; !dup {
 						signTable[key] = string(raw)
 						signOrder = append(signOrder, key)
+					}
+					if c.Spec.Broken == "" && c.Spec.Priv != "" {
+						recordSigned(c.Spec.Priv, contentOf(v, in.Payloads[curPayload].JSON))
+						idSteps++
+						if last.KeyID == c.Key.KeyID {
+							idEqual++
+						}
 					}
 					if c.matching() {
 						libSigned++
@@ -1182,6 +1297,32 @@ func runCase(in caseInput) (res runResult) {
 				}
 			}
 			coqOps = append(coqOps, "XSetPayload p"+strconv.Itoa(op.Payload))
+		case "dupmember":
+			// a hostile FILE: one member occurs twice (other letter case, or exactly duplicated), once
+			// with the attacker's value and once with the honest one.  Whether such a file loads is
+			// the loader's business (C12); IF it loads and a key verifies, GetPayload() must be a
+			// document that key's owner signed.  No model (the Coq model has no file parser).
+			noModel = true
+			parts := strings.Split(op.Mut, ":") // member : alternative name : first|last (position of the attacker's value)
+			if len(parts) != 3 {
+				panic("dupmember needs member:altname:first|last")
+			}
+			text := hostileFile(w, v, parts[0], parts[1], parts[2] == "first", in.Payloads[op.Payload].JSON, payloads[op.Payload])
+			fp := tmpFile()
+			os.WriteFile(fp, text, 0o644)
+			nmd, lerr := intoto.LoadMetadata(fp)
+			os.Remove(fp)
+			wantOp = "?"
+			if lerr != nil {
+				st = "F"
+			} else {
+				md = nmd
+				signedNow, dirty = nil, true
+				if got := canonOfValue(md.GetPayload()); got != nil && bytes.Equal(got, canonOfBytes(in.Payloads[op.Payload].JSON)) {
+					curPayload = op.Payload
+				}
+			}
+			coqOps = append(coqOps, "XDumpLoad")
 		case "assign":
 			// Metablock only: the exported field Signed of the SAME object (which has just been
 			// verified under every key of the cast) is given other content - by assignment or by
@@ -1306,15 +1447,18 @@ func runCase(in caseInput) (res runResult) {
 			case "independent": // made with Go's crypto directly over the prescribed bytes: the library must accept it
 				raw = lib.SignRaw(signerKP.Signer, cur)
 				good = c.Spec.Broken == ""
+				recordSigned(c.Spec.Pub, contentOf(v, in.Payloads[curPayload].JSON))
 			case "stale": // over another content
 				scratch, _ := freshObject(w, payloads[op.Payload])
 				sv, _ := viewOf(scratch)
 				raw = lib.SignRaw(signerKP.Signer, prescribedBytes(sv, in.Payloads[op.Payload].JSON))
+				recordSigned(c.Spec.Pub, contentOf(sv, in.Payloads[op.Payload].JSON))
 			case "non-canonical": // over json.Marshal of the payload instead of the prescribed bytes
 				b, _ := json.Marshal(md.GetPayload())
 				raw = lib.SignRaw(signerKP.Signer, b)
 			case "forged-label": // made by this key, labelled with the id of the next cast member
 				raw = lib.SignRaw(signerKP.Signer, cur)
+				recordSigned(c.Spec.Pub, contentOf(v, in.Payloads[curPayload].JSON))
 				label = cast[(op.Key+1)%len(cast)].Key.KeyID
 			case "garbage":
 				raw = []byte("not a signature")
@@ -1344,6 +1488,9 @@ func runCase(in caseInput) (res runResult) {
 		}
 		observe(st)
 		// harness-level edits always "succeed" for the oracle; SetPayload of an uncanonicalisable value must fail
+		if wantOp == "?" {
+			wantOp = st // the property is silent about whether a hostile file loads
+		}
 		oracleSteps[len(oracleSteps)-1] = wantOp + oracleSteps[len(oracleSteps)-1][1:]
 	}
 
@@ -1462,6 +1609,7 @@ func runCase(in caseInput) (res runResult) {
 	res.LibSigned, res.LibValid = libSigned, libValid
 	res.EnvSteps, res.EnvEqual, res.RtSteps, res.RtEqual = envSteps, envEqual, rtSteps, rtEqual
 	res.FailOps, res.FailSame = failOps, failSame
+	res.AccSteps, res.AccOwned, res.IDSteps, res.IDEqual, res.NoModel = accSteps, accOwned, idSteps, idEqual, noModel
 	res.Trivial = libSigned == 0
 	if w == "dsse" && maxSigners >= 2 {
 		res.Klass = "F6-dsse-multi-sign"
@@ -1582,7 +1730,7 @@ func prune(in *caseInput) {
 	order := []int{0}
 	for i := range in.Ops {
 		switch in.Ops[i].Kind {
-		case "setpayload", "tamper", "addsig", "assign":
+		case "setpayload", "tamper", "addsig", "assign", "dupmember":
 			if in.Ops[i].Mut == "reindent" {
 				continue
 			}
@@ -1929,6 +2077,55 @@ func systematic(r *lib.Rng, all bool) []struct {
 				})
 			})
 		}
+		// hostile files with a doubled member (other letter case / exact duplicate), attacker's value first and last
+		{
+			members := map[string][][2]string{
+				"dsse": {{"payload", "Payload"}, {"payload", "PAYLOAD"}, {"payload", "payload"}, {"signatures", "Signatures"}, {"signatures", "signatures"},
+					{"payloadType", "PayloadType"}, {"payloadType", "payloadType"}, {"sig", "Sig"}, {"sig", "sig"}, {"keyid", "KeyID"}, {"keyid", "keyid"}},
+				"legacy": {{"signed", "Signed"}, {"signed", "SIGNED"}, {"signed", "signed"}, {"signatures", "Signatures"}, {"signatures", "signatures"},
+					{"sig", "Sig"}, {"sig", "sig"}, {"keyid", "KeyID"}, {"keyid", "keyid"}},
+			}
+			for mi, m := range members[w] {
+				for _, pos := range []string{"first", "last"} {
+					m, pos := m, pos
+					// the two spellings in both roles: attacker under the canonical name and under the alternative
+					for _, swap := range []bool{false, true} {
+						a, b := m[0], m[1]
+						if swap {
+							if a == b {
+								continue
+							}
+							a, b = b, a
+						}
+						emit(w, []string{"link", "layout"}[mi%2], "member-case-variants", []string{"ed1", "ecdsa256", "ed2"}, func(in *caseInput) {
+							in.Ops = append(in.Ops, opSpec{Kind: "dupmember", Mut: a + ":" + b + ":" + pos, Payload: 1}, opSpec{Kind: "sign", Key: 1})
+						})
+					}
+				}
+			}
+		}
+		// key ids are labels: upper-case / mixed-case hex ids (same key material) and a lower-case twin
+		for _, style := range []string{"upper", "mixed", "lower"} {
+			style := style
+			restyle := func(id string) *string {
+				switch style {
+				case "upper":
+					id = strings.ToUpper(id)
+				case "mixed":
+					id = strings.ToUpper(id[:len(id)/2]) + id[len(id)/2:]
+				}
+				return &id
+			}
+			for _, names := range [][]string{{"ed1", "ecdsa256", "ed2"}, {"rsa2048", "ed2", "ecdsa384"}} {
+				names := names
+				emit(w, "link", "keyid-case-"+style, names, func(in *caseInput) {
+					for i := range in.Cast {
+						in.Cast[i].KeyID = restyle(pool[in.Cast[i].Pub].Pub.KeyID)
+					}
+					in.Ops = []opSpec{{Kind: "sign", Key: 0}, {Kind: "sign", Key: 1}, {Kind: "dumpload"}, {Kind: "sign", Key: 0}}
+				})
+			}
+		}
 		// one path, rewritten: what was signed and dumped is what is loaded and verifies, whatever
 		// the path held before (longer / shorter / same length; load, add a signature, dump in place)
 		if _, ok := pool["rsa2048"]; ok {
@@ -2027,17 +2224,20 @@ func writeKeys(path string) {
 	}
 }
 
-func interopText(valid, made, envEq, envSteps, rtEq, rtSteps, failSame, failOps int) string {
+func interopText(valid, made, envEq, envSteps, rtEq, rtSteps, failSame, failOps, accOwned, accSteps, idEq, idSteps int) string {
 	return fmt.Sprintf("signatures made by the library that verify with crypto/* directly over the prescribed bytes: %d of %d; "+
 		"envelope steps at which GetPayload() is the content of the signed payload bytes: %d of %d; "+
 		"Dump;LoadMetadata operations (all on one path) that gave back the content and the signature list that were dumped: %d of %d; "+
-		"failed Sign / SetPayload operations that left the object unchanged: %d of %d", valid, made, envEq, envSteps, rtEq, rtSteps, failSame, failOps)
+		"failed Sign / SetPayload operations that left the object unchanged: %d of %d; "+
+		"accepted VerifySignature(key) calls where GetPayload() is a document the key's owner signed: %d of %d; "+
+		"signatures made by the library that are recorded under key.KeyID verbatim: %d of %d",
+		valid, made, envEq, envSteps, rtEq, rtSteps, failSame, failOps, accOwned, accSteps, idEq, idSteps)
 }
 func (r runResult) interopImpl() string {
-	return interopText(r.LibValid, r.LibSigned, r.EnvEqual, r.EnvSteps, r.RtEqual, r.RtSteps, r.FailSame, r.FailOps)
+	return interopText(r.LibValid, r.LibSigned, r.EnvEqual, r.EnvSteps, r.RtEqual, r.RtSteps, r.FailSame, r.FailOps, r.AccOwned, r.AccSteps, r.IDEqual, r.IDSteps)
 }
 func (r runResult) interopOracle() string {
-	return interopText(r.LibSigned, r.LibSigned, r.EnvSteps, r.EnvSteps, r.RtSteps, r.RtSteps, r.FailOps, r.FailOps)
+	return interopText(r.LibSigned, r.LibSigned, r.EnvSteps, r.EnvSteps, r.RtSteps, r.RtSteps, r.FailOps, r.FailOps, r.AccSteps, r.AccSteps, r.IDSteps, r.IDSteps)
 }
 
 func put(w *lib.Writer, in caseInput, klass string) {
@@ -2046,8 +2246,8 @@ func put(w *lib.Writer, in caseInput, klass string) {
 		klass = res.Klass
 	}
 	inp := lib.MustJSON(in)
-	if strings.HasPrefix(klass, "nullness-") {
-		res.Coq = "" // the model's lists do not distinguish nil from empty
+	if strings.HasPrefix(klass, "nullness-") || res.NoModel {
+		res.Coq = "" // the model's lists do not distinguish nil from empty / the model has no file parser
 	}
 	w.Put(lib.Case{Klass: klass, Input: inp, Impl: res.Impl, Oracle: res.Oracle, CoqModel: res.Coq, Trivial: res.Trivial})
 	if res.LibSigned+res.EnvSteps+res.RtSteps+res.FailOps > 0 {
